@@ -20,9 +20,12 @@ def body(run):
                         label="deviation demo: mergeChunks' duplicate filter violates InvReassembly"),
         lambda: run.tlc("ScRecv", "ScRecv_MC", "ScRecv_c12_gen_q.cfg" if q else "ScRecv_c12_gen_t.cfg", mode="gen", count=False,
                         label="streams with contract and as-is outcome of every chunk"),
+        lambda: run.tlc("ScRecv", "ScRecv_MC", "ScRecv_c12_gen_lim.cfg", mode="gen", count=False,
+                        label="streams at the negotiated limits: bodies at / near / above MaxMessageSize in many small and few large chunks, abort rounds (MaxChunks 40)"),
         lambda: exe.__setitem__(0, run.go_build("screcv")),
     )
     rows = res[2].rows
+    lim = res[3].rows
     combos = [("None", "None"), ("Basic256Sha256", "Sign"), ("Basic256Sha256", "SignAndEncrypt")]
     if not q:
         combos += [c for c in sc.SECURED if c[0] != "Basic256Sha256"]
@@ -36,6 +39,15 @@ def body(run):
                 c = dict(b)
                 c.update({"prop": "C12", "policy": pol, "mode": mode, "side": side, "sender": "ref", "salt": salt})
                 cases.append(c)
+    # conforming streams at the negotiated limits (MaxMessageSize 16384, MaxChunkCount 40 through the ACK)
+    for b in lim:
+        for side in ("server", "client"):
+            if q and (b["mode"] == "None") != (side == "server") and b["split"] == "even":
+                continue
+            c = dict(b)
+            c.update({"prop": "C12", "policy": "None" if b["mode"] == "None" else "Basic256Sha256", "side": side, "sender": "ref",
+                      "maxmsg": 16384, "salt": 77})
+            cases.append(c)
     run.log("TLC: %d states; %d streams; %d cases to replay" % (run.cov["states"], len(rows), len(cases)))
     tpath = run.tmp("traces.ndjson")
     results = run.go_run(exe[0], ["-par", "6", "-trace", tpath], cases=cases, timeout=run.pick(600, 2400))
@@ -61,7 +73,7 @@ def body(run):
         run.violation("%s:recorded-trace-not-a-behaviour-of-the-specification" % run.prop.lower(),
                       "TLC rejects the recorded receiver events (see out/log/%s)" % run.prop)
 
-    run.cov["streams_generated"] = len(rows)
+    run.cov["streams_generated"] = len(rows) + len(lim)
     run.cov["rule"] = ("one case per (TLC stream, policy, mode, receiving side); class = receiver x policy x mode x plan "
                        "(chunks per message, aborts) x numbering (plain / four shapes of the wrap); the split shape of the bodies (any / even / 1-2 byte first / 1-2 byte last part) is part of the stream")
     run.assumptions += [
